@@ -583,7 +583,7 @@ func layoutIndexEntry(c *eng.Ctx) {
 	// params of persistMetaOfMessage: (dataPageIndex, dataLen, messageOffset) by name
 	names := map[string]ssa.Value{}
 	for i, prm := range w.Params[1:] {
-		names[prm.Name()] = pargs[i]
+		names[eng.ParamName(prm)] = pargs[i]
 	}
 	isExtract := func(v ssa.Value, idx int) bool {
 		if alloc == nil {
